@@ -249,6 +249,10 @@ fn pick(t: &Tree, kind: &str, k: usize) -> Vec<usize> {
     };
     match kind {
         "live" => sel(&live),
+        "root" => match t.get_root() {
+            Ok(r) => vec![r],
+            Err(_) => vec![],
+        },
         "nonroot" => sel(&live.iter().copied().filter(|i| t.get(i).unwrap().parent.is_some()).collect()),
         "leaf" => sel(&live.iter().copied().filter(|i| t.get(i).unwrap().is_tip()).collect()),
         "internal" => sel(&live.iter().copied().filter(|i| !t.get(i).unwrap().is_tip()).collect()),
@@ -367,6 +371,22 @@ fn run_op(st: &mut St, a: &[&str]) -> R {
             Ok(String::new())
         }
         "dump" => Ok(dump(&st.trees[cur])),
+        "reparse" => {
+            let k = usz(a[1]);
+            while st.trees.len() <= k {
+                st.trees.push(Tree::new());
+            }
+            match st.trees[cur].to_newick() {
+                Err(e) => Err(terr(&e)),
+                Ok(s) => match Tree::from_newick(&s) {
+                    Err(e) => Err(nerr(&e)),
+                    Ok(t2) => {
+                        st.trees[k] = t2;
+                        Ok(String::new())
+                    }
+                },
+            }
+        }
         _ => run_query(st, a),
     }
 }
